@@ -317,7 +317,7 @@ class _ToyMultiSurr(toy.ToyMulti):
 
 def _toy_multi(case):
     p = case["phase"]
-    return _ToyMultiSurr(["A", "B", "C"], {"BETA": {"xb": p["xb"], "dH": p["dH"], "dS": p["dS"]}}, D0=case["D0"], Q=case["Q"])
+    return _ToyMultiSurr(["A", "B", "C", "D"][:len(p["xb"]) + 1], {"BETA": {"xb": p["xb"], "dH": p["dH"], "dS": p["dS"]}}, D0=case["D0"], Q=case["Q"])
 
 
 def _cmp(out, kind, what, got, exp, rtol, extra=None):
@@ -486,7 +486,7 @@ def check_surrogate_multi(case):
         out.fail("surrogate_query_raised:%s" % type(e).__name__, "%r at %s:%d (%s); trained %r" % (e, os.path.basename(fr[-1].filename), fr[-1].lineno, fr[-1].name, trained))
     finally:
         sys.stdout = so
-    out.label("trained_" + "+".join(trained) if trained else "untrained", case["kernel"], "broadcast" if case["broadcast"] else "pointwise", "T_%d" % len(set(case["Ttrain"])))
+    out.label("trained_" + "+".join(trained) if trained else "untrained", "solutes_%d" % len(case["phase"]["xb"]), case["kernel"], "broadcast" if case["broadcast"] else "pointwise", "T_%d" % len(set(case["Ttrain"])))
     out.nt(0 < len(trained) < 3)
     return out
 
@@ -494,29 +494,30 @@ def check_surrogate_multi(case):
 @st.composite
 def _surr_multi_case(draw):
     T0 = draw(st.floats(600, 1000))
-    x0 = [draw(st.floats(0.01, 0.08)), draw(st.floats(0.01, 0.08))]
-    xb = [draw(st.floats(0.1, 0.4)), draw(st.floats(0.1, 0.4))]
+    ns = draw(st.sampled_from([2, 2, 3]))          # solutes: ternary, or quaternary (flattened n x n blocks of the curvature output differ from 2n only there)
+    x0 = [draw(st.floats(0.01, 0.08)) for _ in range(ns)]
+    xb = [draw(st.floats(0.1, 0.4 if ns == 2 else 0.28)) for _ in range(ns)]
     S = 10 ** draw(st.floats(0.5, 1.5))
-    lnK = xb[0] * np.log(x0[0]) + xb[1] * np.log(x0[1]) - np.log(S)
+    lnK = sum(xb[i] * np.log(x0[i]) for i in range(ns)) - np.log(S)
     dS = draw(st.floats(0, 30))
     phase = {"xb": xb, "dS": dS, "dH": float(8.314462618 * T0 * (dS / 8.314462618 - lnK))}
     bc = draw(st.booleans())
     nT = draw(st.sampled_from([1, 2, 3]))
     if bc:
-        nx = draw(st.integers(4, 7))
+        nx = draw(st.integers(4, 7)) + 2 * (ns - 2)
         Ttrain = [T0, T0 + 30.0, T0 - 30.0][:nT]
         if draw(st.integers(0, 4)) == 4:
             Ttrain = [float(v) for v in np.linspace(T0 - 30.0, T0 + 30.0, nx)]       # square grid: as many temperatures as compositions
     else:
-        nx = draw(st.integers(6, 10))
+        nx = draw(st.integers(6, 10)) + 2 * (ns - 2)
         Ttrain = [T0 + (-1) ** k * (8.0 + 4.0 * k + draw(st.floats(0.0, 3.0))) for k in range(nx)]    # point-wise lists: distinct temperatures that zig-zag, so the points are never collinear in (x, T)
     # distinct, separated training compositions (duplicates make any interpolant singular): distinct cells of a 5x5 lattice, jittered inside the cell
-    cells = draw(st.lists(st.tuples(st.integers(0, 4), st.integers(0, 4)), min_size=nx, max_size=nx, unique=True))
-    xtrain = [[x0[0] * (0.8 + 0.2 * i + draw(st.floats(0.0, 0.08))), x0[1] * (0.8 + 0.2 * j + draw(st.floats(0.0, 0.08)))] for i, j in cells]
+    cells = draw(st.lists(st.tuples(*[st.integers(0, 4)] * ns), min_size=nx, max_size=nx, unique=True))
+    xtrain = [[x0[k] * (0.8 + 0.2 * cell[k] + draw(st.floats(0.0, 0.08))) for k in range(ns)] for cell in cells]
     train = draw(st.lists(st.sampled_from(["df", "diff", "curv", "curv"]), min_size=0, max_size=3, unique=True))
-    return {"phase": phase, "D0": [1e-5, 3e-5], "Q": [draw(st.floats(100e3, 250e3)), draw(st.floats(100e3, 250e3))], "xtrain": xtrain, "Ttrain": Ttrain, "broadcast": bc,
+    return {"phase": phase, "D0": [1e-5, 3e-5, 2e-5][:ns], "Q": [draw(st.floats(100e3, 250e3)) for _ in range(ns)], "xtrain": xtrain, "Ttrain": Ttrain, "broadcast": bc,
             "train": train, "logX": draw(st.booleans()), "kernel": draw(st.sampled_from(["cubic", "linear", "thin_plate_spline"])),
-            "xq": [[x0[0] * 1.1, x0[1] * 1.2], [x0[0] * 1.3, x0[1] * 0.9]], "Tq": [T0 + 5.0, T0 - 5.0],
+            "xq": [[x0[k] * [1.1, 1.2, 1.05][k] for k in range(ns)], [x0[k] * [1.3, 0.9, 1.15][k] for k in range(ns)]], "Tq": [T0 + 5.0, T0 - 5.0],
             "R": [1e-9, 3e-9, 1e-8], "g": [2000.0, 700.0, 200.0]}
 
 
